@@ -57,6 +57,7 @@ Theorem C03_inv_meaning : forall c U, univ_ok c U ->
     /\ utxo st = fold_left apply_block lc []
     /\ (forall id h, lc_hash_at c (ring st) id = Some h <-> chain_index lc id h)
     /\ latest_id st = Ok (tip_id lcr) /\ latest_hash st = Ok (tip_hash lcr)
+    /\ last_id st = tip_id lcr /\ last_hash st = tip_hash lcr
     /\ (forall h sb, get_block st h = Some sb ->
           In (h, b_id (s_b sb)) (ri_ent (item_at (ring st) (slot c (b_id (s_b sb))))))
     /\ (forall p e, (p < nslots c)%nat -> In e (ri_ent (item_at (ring st) p)) ->
@@ -71,7 +72,8 @@ Proof. exact inv_meaning. Qed.
    b_prev and starting at a root, such that: exactly the blocks of lc carry the
    on-chain flag; the spendable set is the replay of lc from the empty set; the
    by-height index answers exactly the blocks of lc; the reported tip id / hash are
-   those of the last block of lc (0 / 0 for the empty chain); every stored block has
+   those of the last block of lc (0 / 0 for the empty chain), and so are
+   Blockchain.last_block_id / last_block_hash; every stored block has
    exactly one ring entry, in the slot of its id, and there are no other entries *)
 Theorem C03_ledger_is_replay : forall c U, univ_ok c U -> valid_wf U ->
   forall bs, 1 <= 2 * gp_of c -> orphan_free c U (init c) bs ->
@@ -83,6 +85,7 @@ Theorem C03_ledger_is_replay : forall c U, univ_ok c U -> valid_wf U ->
       /\ utxo st = fold_left apply_block lc []
       /\ (forall id h, lc_hash_at c (ring st) id = Some h <-> chain_index lc id h)
       /\ latest_id st = Ok (tip_id (rev lc)) /\ latest_hash st = Ok (tip_hash (rev lc))
+      /\ last_id st = tip_id (rev lc) /\ last_hash st = tip_hash (rev lc)
       /\ (forall h sb, get_block st h = Some sb ->
             In (h, b_id (s_b sb)) (ri_ent (item_at (ring st) (slot c (b_id (s_b sb))))))
       /\ (forall p e, (p < nslots c)%nat -> In e (ri_ent (item_at (ring st) p)) ->
@@ -91,12 +94,14 @@ Theorem C03_ledger_is_replay : forall c U, univ_ok c U -> valid_wf U ->
       /\ length (ring st) = nslots c.
 Proof. exact ledger_is_replay. Qed.
 
-(* PARTIAL (the full statement "last_block_id / last_block_hash are the tip" is refuted below):
-   last_block_id is an upper bound of the reported height *)
-Theorem C03_last_id_bounds_height_partial : forall c U, univ_ok c U -> valid_wf U ->
-  forall bs, orphan_free c U (init c) bs ->
-  exists st i, deliver c (init c) bs = Ok st /\ latest_id st = Ok i /\ i <= last_id st.
-Proof. exact last_id_bounds_height_init. Qed.
+(* Blockchain.last_block_id / last_block_hash ARE the reported tip in every state of an
+   orphan-free history (0 / 0 while the chain is empty) — holds since the repair of
+   FinishWithFailure (resync_last); before it a failed multi-block reorganisation left
+   them on a block of the abandoned chain *)
+Theorem C03_last_is_tip : forall c U, univ_ok c U ->
+  forall st, Inv c U st ->
+  exists i h, latest_id st = Ok i /\ latest_hash st = Ok h /\ last_id st = i /\ last_hash st = h.
+Proof. exact last_is_tip. Qed.
 
 (* the executable checker of the hypotheses is sound *)
 Theorem C03_history_check_sound : forall c U order, history_check c U order = true ->
@@ -104,19 +109,19 @@ Theorem C03_history_check_sound : forall c U order, history_check c U order = tr
   /\ exists bs, lookup U order = Some bs /\ (forall b, In b bs -> In b U) /\ orphan_free c U (init c) bs.
 Proof. exact history_check_ok. Qed.
 
-(* REFUTED part: Blockchain.last_block_id / last_block_hash do NOT describe the tip.
-   Full statement that fails:  Inv c U st -> latest_id st = Ok (last_id st) /\ latest_hash st = Ok (last_hash st).
-   on_chain_reorganization only ever raises them; after a reorganisation attempt that
-   wound part of a longer candidate chain and failed they keep naming a block of the
-   abandoned chain, even after the next successful extension of the restored chain
-   (orphan-free history; the fields are not part of the observation of C03/C04) *)
-Lemma C03_last_hash_is_tip_refuted :
-  exists st,
+(* regression example of the repaired defect: the failed reorganisation 12,13,14,(15 invalid)
+   against 1,2,3 takes 11 dispatcher steps and leaves last_block_* on the tip 3; they
+   follow the extension by 4 *)
+Example C03_last_is_tip_example :
+  exists st7 st,
     history_check wit_cfg wit_last_U (hashes wit_last_U) = true
+    /\ deliver wit_cfg (init wit_cfg) (firstn 7 wit_last_U) = Ok st7
+    /\ latest_id st7 = Ok 3 /\ latest_hash st7 = Ok 3 /\ last_id st7 = 3 /\ last_hash st7 = 3
+    /\ wsteps st7 = 11
     /\ deliver wit_cfg (init wit_cfg) wit_last_U = Ok st
     /\ latest_id st = Ok 4 /\ latest_hash st = Ok 4
-    /\ last_id st = 4 /\ last_hash st = 14.
-Proof. exact last_hash_stale_witness. Qed.
+    /\ last_id st = 4 /\ last_hash st = 4.
+Proof. exact last_is_tip_example. Qed.
 
 (* non-vacuity: the worked universe and delivery order meet every hypothesis *)
 Example C03_universe_example :
@@ -145,6 +150,5 @@ Print Assumptions C03_inv_step.
 Print Assumptions C03_add_block_total.
 Print Assumptions C03_inv_meaning.
 Print Assumptions C03_ledger_is_replay.
-Print Assumptions C03_last_id_bounds_height_partial.
+Print Assumptions C03_last_is_tip.
 Print Assumptions C03_history_check_sound.
-Print Assumptions C03_last_hash_is_tip_refuted.
